@@ -36,6 +36,12 @@ func calleeObj(c ssa.CallInstruction) *types.Func {
 }
 
 func calleeName(c ssa.CallInstruction) string {
+	// a function standing in for a renamed anchor answers to the reference name
+	if f := c.Common().StaticCallee(); f != nil {
+		if n, ok := renamedFns.Load(f); ok {
+			return n.(string)
+		}
+	}
 	if o := calleeObj(c); o != nil {
 		return objName(o)
 	}
@@ -366,6 +372,11 @@ func successEdges(c ssa.CallInstruction) []edge {
 // inlined `if err := helper(); err != nil` looks like, and the source of the
 // classic infeasible path through it.
 func reachable(f *ssa.Function, from *ssa.BasicBlock, cut []edge) map[*ssa.BasicBlock]bool {
+	return reachableVia(f, from, nil, cut)
+}
+
+// reachableVia: as reachable, the start block being entered from predecessor via (nil: no history).
+func reachableVia(f *ssa.Function, from, via *ssa.BasicBlock, cut []edge) map[*ssa.BasicBlock]bool {
 	cutset := map[edge]bool{}
 	for _, e := range cut {
 		cutset[e] = true
@@ -379,7 +390,7 @@ func reachable(f *ssa.Function, from *ssa.BasicBlock, cut []edge) map[*ssa.Basic
 	}
 	type st struct{ b, via, via2, via3 *ssa.BasicBlock }
 	done := map[st]bool{}
-	work := []st{{from, nil, nil, nil}}
+	work := []st{{from, via, nil, nil}}
 	done[work[0]] = true
 	seen[from] = true
 	for len(work) > 0 {
@@ -465,9 +476,16 @@ func testedValue(cond ssa.Value) (base ssa.Value, pos bool) {
 // truthiness: 1 = known non-nil/true, -1 = known nil/false, 0 = unknown; `at` is the block the value flows out of.
 func truthiness(v ssa.Value, at *ssa.BasicBlock) int { return truthinessD(v, at, 0) }
 
+// assumeTruth: values assumed non-nil (+1) / nil (-1) for the duration of one query (set and cleared by the
+// caller; the checker is single-threaded per program).
+var assumeTruth = map[ssa.Value]int{}
+
 func truthinessD(v ssa.Value, at *ssa.BasicBlock, depth int) int {
 	if depth > 4 {
 		return 0
+	}
+	if t, ok := assumeTruth[v]; ok {
+		return t
 	}
 	switch x := v.(type) {
 	case *ssa.Const:
@@ -530,8 +548,8 @@ func truthinessD(v ssa.Value, at *ssa.BasicBlock, depth int) int {
 			return t0
 		}
 	}
-	// decided by the test that guards the single edge into `at`
-	if at != nil && len(at.Preds) == 1 {
+	// decided by a test that guards the only way into `at` (a chain of single-predecessor blocks)
+	for n := 0; at != nil && len(at.Preds) == 1 && n < 8; n++ {
 		q := at.Preds[0]
 		if len(q.Instrs) > 0 {
 			if ifi, ok := q.Instrs[len(q.Instrs)-1].(*ssa.If); ok && len(q.Succs) == 2 && q.Succs[0] != q.Succs[1] {
@@ -545,6 +563,7 @@ func truthinessD(v ssa.Value, at *ssa.BasicBlock, depth int) int {
 				}
 			}
 		}
+		at = q
 	}
 	return 0
 }
@@ -846,7 +865,7 @@ func (w *origWalker) walk(v ssa.Value) {
 		}
 		w.root(Root{Kind: "const", Val: v, Desc: d})
 	case *ssa.Parameter:
-		w.root(Root{Kind: "param", Val: v, Desc: x.Name()})
+		w.root(Root{Kind: "param", Val: v, Desc: refParamName(x)})
 	case *ssa.FreeVar:
 		// resolve through the MakeClosure in the parent
 		fn := x.Parent()
@@ -868,7 +887,7 @@ func (w *origWalker) walk(v ssa.Value) {
 			}
 		}
 		if !found {
-			w.root(Root{Kind: "freevar", Val: v, Desc: x.Name()})
+			w.root(Root{Kind: "freevar", Val: v, Desc: refFreeVarName(x)})
 		}
 	case *ssa.Phi:
 		for _, e := range x.Edges {
@@ -930,6 +949,14 @@ func (w *origWalker) walk(v ssa.Value) {
 		w.walk(x.Y)
 	case *ssa.Field:
 		w.root(Root{Kind: "field", Val: v, Desc: fieldName(x.X.Type(), x.Field)})
+		// a field of a local struct that was loaded whole (a struct argument after inlining): only what was
+		// stored into that field
+		if ld, ok := x.X.(*ssa.UnOp); ok && ld.Op == token.MUL {
+			if al, ok := ld.X.(*ssa.Alloc); ok && al.Referrers() != nil {
+				w.localField(al, x.Field, v, 0)
+				return
+			}
+		}
 		w.walk(x.X)
 	case *ssa.Index:
 		w.root(Root{Kind: "elem", Val: v, Desc: "index"})
@@ -957,6 +984,9 @@ func fieldName(t types.Type, i int) string {
 		t = p.Elem()
 	}
 	if s, ok := t.Underlying().(*types.Struct); ok && i < s.NumFields() {
+		if nt, isN := types.Unalias(t).(*types.Named); isN {
+			return refFieldName(nt, s, i)
+		}
 		return s.Field(i).Name()
 	}
 	return fmt.Sprintf("#%d", i)
@@ -1101,32 +1131,8 @@ func (w *origWalker) load(addr ssa.Value, v ssa.Value) {
 		base := a.X
 		fname := fieldName(base.Type(), a.Field)
 		if al, ok := base.(*ssa.Alloc); ok {
-			// local struct: stores to the same field of the same cell
-			found := false
 			w.root(Root{Kind: "field", Val: v, Desc: fname})
-			for _, r := range *al.Referrers() {
-				if fa, ok := r.(*ssa.FieldAddr); ok && fa.Field == a.Field {
-					for _, st := range storesTo(fa) {
-						found = true
-						w.walk(st.Val)
-					}
-				}
-			}
-			// whole-struct stores
-			for _, st := range storesTo(al) {
-				found = true
-				w.root(Root{Kind: "field", Val: v, Desc: fname})
-				w.walk(st.Val)
-			}
-			// maybe filled by a callee receiving &cell
-			esc := false
-			for _, c := range escapesTo(al) {
-				esc = true
-				w.root(Root{Kind: "call", Val: v, Desc: calleeName(c) + "(&cell)", Call: c, Idx: -1})
-			}
-			if !found && !esc {
-				w.root(Root{Kind: "const", Val: v, Desc: "zero"})
-			}
+			w.localField(al, a.Field, v, 0)
 			return
 		}
 		w.root(Root{Kind: "field", Val: v, Desc: fname})
@@ -1136,6 +1142,39 @@ func (w *origWalker) load(addr ssa.Value, v ssa.Value) {
 		w.walk(a.X)
 	default:
 		w.walk(addr)
+	}
+}
+
+// localField: what field i of the local struct cell al can hold: the values stored into that field; for a store of
+// a whole struct, that struct's field i when it is a load of another local cell (a struct passed by value, also
+// after inlining), otherwise everything the stored value comes from.
+func (w *origWalker) localField(al *ssa.Alloc, i int, v ssa.Value, depth int) {
+	found := false
+	for _, r := range *al.Referrers() {
+		if fa, ok := r.(*ssa.FieldAddr); ok && fa.Field == i {
+			for _, st := range storesTo(fa) {
+				found = true
+				w.walk(st.Val)
+			}
+		}
+	}
+	for _, st := range storesTo(al) {
+		found = true
+		if ld, ok := st.Val.(*ssa.UnOp); ok && ld.Op == token.MUL && depth < 4 {
+			if al2, ok := ld.X.(*ssa.Alloc); ok && al2 != al && al2.Referrers() != nil {
+				w.localField(al2, i, v, depth+1)
+				continue
+			}
+		}
+		w.walk(st.Val)
+	}
+	esc := false
+	for _, c := range escapesTo(al) {
+		esc = true
+		w.root(Root{Kind: "call", Val: v, Desc: calleeName(c) + "(&cell)", Call: c, Idx: -1})
+	}
+	if !found && !esc {
+		w.root(Root{Kind: "const", Val: v, Desc: "zero"})
 	}
 }
 
@@ -1240,9 +1279,9 @@ func atomsOf(v ssa.Value) map[string]bool {
 				out["const:nil"] = true
 			}
 		case *ssa.Parameter:
-			out["param:"+x.Name()] = true
+			out["param:"+refParamName(x)] = true
 		case *ssa.FreeVar:
-			out["param:"+x.Name()] = true
+			out["param:"+refFreeVarName(x)] = true
 		case *ssa.Global:
 			out["global:"+x.Name()] = true
 		case *ssa.BinOp:
@@ -1579,6 +1618,42 @@ func failsClosed(f *ssa.Function, c ssa.CallInstruction) (bool, string) {
 					}
 				}
 			}
+		}
+		// merged: the error flows into a phi that is tested (the result of an inlined helper): assume it
+		// non-nil on the edge it enters the phi by and look for a nil return from there
+		merged := false
+		for _, ev := range errValues(c) {
+			for _, a := range aliasesOf(ev) {
+				if a.Referrers() == nil {
+					continue
+				}
+				for _, ref := range *a.Referrers() {
+					phi, ok := ref.(*ssa.Phi)
+					if !ok || len(phi.Edges) != len(phi.Block().Preds) {
+						continue
+					}
+					for i, e := range phi.Edges {
+						if e != a {
+							continue
+						}
+						merged = true
+						assumeTruth[a] = 1
+						reach := reachableVia(f, phi.Block(), phi.Block().Preds[i], nil)
+						delete(assumeTruth, a)
+						for _, s := range errReturnSites(f) {
+							if !isNilConst(s.val) {
+								continue
+							}
+							if (s.pred != nil && reach[s.pred]) || (s.pred == nil && reach[s.ret.Block()]) {
+								return false, "a nil return is reachable after the call failed"
+							}
+						}
+					}
+				}
+			}
+		}
+		if merged {
+			return true, "merged result: failure reaches no nil return"
 		}
 		return false, "error result is never tested nor returned"
 	}
@@ -2159,23 +2234,369 @@ func (s retSite) reachedIn(reach map[*ssa.BasicBlock]bool) bool {
 type valueLeaf struct {
 	val  ssa.Value
 	from *ssa.BasicBlock // the block the value flows out of (the use's block for a non-phi value)
+	to   *ssa.BasicBlock // the block of the phi it flows into (nil for a non-phi value)
+}
+
+// truthOnEdge: is v known true/non-nil (+1) or false/nil (-1) when control passes from block from to block to?
+func truthOnEdge(v ssa.Value, from, to *ssa.BasicBlock) int {
+	if from == nil {
+		return 0
+	}
+	if to != nil && len(from.Instrs) > 0 && len(from.Succs) == 2 && from.Succs[0] != from.Succs[1] {
+		if ifi, ok := from.Instrs[len(from.Instrs)-1].(*ssa.If); ok {
+			base, pos := testedValue(ifi.Cond)
+			if base == v {
+				if (from.Succs[0] == to) == pos {
+					return 1
+				}
+				return -1
+			}
+		}
+	}
+	return truthiness(v, from)
 }
 
 // valueLeaves splits a value that is a phi (transitively) into the values that flow in on each edge.
 func valueLeaves(v ssa.Value, at *ssa.BasicBlock) []valueLeaf {
 	var out []valueLeaf
 	seen := map[*ssa.Phi]bool{}
-	var rec func(v ssa.Value, from *ssa.BasicBlock, depth int)
-	rec = func(v ssa.Value, from *ssa.BasicBlock, depth int) {
+	var rec func(v ssa.Value, from, to *ssa.BasicBlock, depth int)
+	rec = func(v ssa.Value, from, to *ssa.BasicBlock, depth int) {
 		if phi, ok := v.(*ssa.Phi); ok && depth < 5 && !seen[phi] && len(phi.Edges) == len(phi.Block().Preds) {
 			seen[phi] = true
 			for i, e := range phi.Edges {
-				rec(e, phi.Block().Preds[i], depth+1)
+				rec(e, phi.Block().Preds[i], phi.Block(), depth+1)
 			}
 			return
 		}
-		out = append(out, valueLeaf{v, from})
+		out = append(out, valueLeaf{v, from, to})
 	}
-	rec(v, at, 0)
+	rec(v, at, nil, 0)
+	return out
+}
+
+// funcValuesOf: the functions a function-typed value may denote, found structurally: a function, a closure (a bound
+// method's wrapper is replaced by the method), the results of a statically resolved call that returns such a value,
+// phis and conversions of these.
+func funcValuesOf(v ssa.Value) []*ssa.Function {
+	var out []*ssa.Function
+	seen := map[ssa.Value]bool{}
+	add := func(g *ssa.Function) {
+		// `x.m` as a value: a synthetic wrapper that calls the method
+		if g.Synthetic != "" && strings.HasSuffix(g.Name(), "$bound") && len(g.Blocks) > 0 {
+			for _, c := range callsIn(g) {
+				if sc := c.Common().StaticCallee(); sc != nil && sc.Name() == strings.TrimSuffix(g.Name(), "$bound") {
+					g = sc
+					break
+				}
+			}
+		}
+		for _, h := range out {
+			if h == g {
+				return
+			}
+		}
+		out = append(out, g)
+	}
+	var walk func(v ssa.Value, depth int)
+	walk = func(v ssa.Value, depth int) {
+		if v == nil || seen[v] || depth > 6 {
+			return
+		}
+		seen[v] = true
+		switch x := v.(type) {
+		case *ssa.Function:
+			add(x)
+		case *ssa.MakeClosure:
+			if g, ok := x.Fn.(*ssa.Function); ok {
+				add(g)
+			}
+		case *ssa.ChangeType:
+			walk(x.X, depth+1)
+		case *ssa.MakeInterface:
+			walk(x.X, depth+1)
+		case *ssa.Phi:
+			for _, e := range x.Edges {
+				walk(e, depth+1)
+			}
+		case *ssa.UnOp:
+			if x.Op == token.MUL {
+				if al, ok := x.X.(*ssa.Alloc); ok {
+					for _, st := range storesTo(al) {
+						walk(st.Val, depth+1)
+					}
+				}
+			}
+		case *ssa.Call:
+			if g := x.Call.StaticCallee(); g != nil && len(g.Blocks) > 0 {
+				for _, ret := range returnsOf(g) {
+					for _, rv := range ret.Results {
+						if _, isSig := rv.Type().Underlying().(*types.Signature); isSig {
+							walk(rv, depth+1)
+						}
+					}
+				}
+			}
+		case *ssa.Extract:
+			if c, ok := x.Tuple.(*ssa.Call); ok {
+				if g := c.Call.StaticCallee(); g != nil && len(g.Blocks) > 0 {
+					for _, ret := range returnsOf(g) {
+						if x.Index < len(ret.Results) {
+							walk(ret.Results[x.Index], depth+1)
+						}
+					}
+				}
+			}
+		}
+	}
+	walk(v, 0)
+	return out
+}
+
+// storedToField: is v (or a value it is computed from by conversions) the value some store in f puts into a
+// struct field of that name? (`sig := compute(); x.prev = sig; if sig != x.parsed` compares what `x.prev` holds.)
+func storedToField(f *ssa.Function, v ssa.Value, field string) bool {
+	for _, b := range f.Blocks {
+		for _, in := range b.Instrs {
+			st, ok := in.(*ssa.Store)
+			if !ok {
+				continue
+			}
+			fa, ok := st.Addr.(*ssa.FieldAddr)
+			if !ok || fieldName(fa.X.Type(), fa.Field) != field {
+				continue
+			}
+			for _, a := range aliasesOf(v) {
+				if st.Val == a {
+					return true
+				}
+			}
+		}
+	}
+	return false
+}
+
+// ---- verdict closure -------------------------------------------------------------------------------------
+//
+// A function "succeeds only through a verdict" when every nil-error return of it is unreachable once the
+// accepting edges of the verdict tests in it, and the success edges of its calls to other such functions, are
+// cut (or when its error is directly the error of such a function). The set is found by name-free fixpoint
+// over the given functions, so the rules built on it do not care how the verdict is split into helpers.
+type verdictSet struct {
+	cut  map[*ssa.Function][]edge // accepting edges per member
+	site map[*ssa.Function][]condEdge
+}
+
+func (vs *verdictSet) has(f *ssa.Function) bool { _, ok := vs.cut[f]; return ok }
+
+// cutsIn: the edges of f (member or not) that lie behind a verdict: its own accepting edges and the success edges of
+// its calls to members.
+func (vs *verdictSet) cutsIn(f *ssa.Function, accept func(*ssa.Function, condEdge) bool) (cut []edge, direct []ssa.Value) {
+	for _, ce := range condEdgesOf(f) {
+		if accept(f, ce) {
+			cut = append(cut, ce.holds)
+		}
+	}
+	for _, c := range callsIn(f) {
+		g := c.Common().StaticCallee()
+		if g == nil || !vs.has(g) {
+			continue
+		}
+		if _, isCall := c.(*ssa.Call); !isCall {
+			continue
+		}
+		cut = append(cut, successEdges(c)...)
+		for _, ev := range errValues(c) {
+			direct = append(direct, aliasesOf(ev)...)
+		}
+	}
+	return
+}
+
+func verdictClosure(funcs []*ssa.Function, accept func(*ssa.Function, condEdge) bool) *verdictSet {
+	vs := &verdictSet{cut: map[*ssa.Function][]edge{}, site: map[*ssa.Function][]condEdge{}}
+	for changed := true; changed; {
+		changed = false
+		for _, f := range funcs {
+			if vs.has(f) || len(f.Blocks) == 0 {
+				continue
+			}
+			res := f.Signature.Results()
+			if res.Len() == 0 || !isErrorType(res.At(res.Len()-1).Type()) {
+				continue
+			}
+			cut, direct := vs.cutsIn(f, accept)
+			isDirect := false
+			ok := true
+			for _, s := range errReturnSites(f) {
+				for _, d := range direct {
+					if s.val == d {
+						isDirect = true
+					}
+				}
+				if isNilConst(s.val) && (len(cut) == 0 || siteReachable(f, s, cut)) {
+					ok = false
+				}
+			}
+			if ok && (len(cut) > 0 || isDirect) {
+				vs.cut[f] = cut
+				for _, ce := range condEdgesOf(f) {
+					if accept(f, ce) {
+						vs.site[f] = append(vs.site[f], ce)
+					}
+				}
+				changed = true
+			}
+		}
+	}
+	return vs
+}
+
+// sectionCall: a call in f that opens a window (offset, length) over a file: io.NewSectionReader itself, or a
+// module function that hands two of its own parameters unchanged to one (a constructor wrapping the reader).
+type sectionCall struct {
+	call        ssa.CallInstruction
+	off, length ssa.Value
+}
+
+func sectionWrapperParams(g *ssa.Function, depth int) (offIdx, lenIdx int, ok bool) {
+	if g == nil || len(g.Blocks) == 0 || depth > 2 {
+		return 0, 0, false
+	}
+	pidx := func(v ssa.Value) int {
+		for i, prm := range g.Params {
+			if v == ssa.Value(prm) {
+				return i
+			}
+		}
+		return -1
+	}
+	for _, c := range callsIn(g) {
+		var o, l ssa.Value
+		if calleeName(c) == "io.NewSectionReader" {
+			a := callArgs(c)
+			o, l = a[1], a[2]
+		} else if h := c.Common().StaticCallee(); h != nil && h != g {
+			if oi, li, ok2 := sectionWrapperParams(h, depth+1); ok2 {
+				a := c.Common().Args
+				if oi < len(a) && li < len(a) {
+					o, l = a[oi], a[li]
+				}
+			}
+		}
+		if o == nil {
+			continue
+		}
+		oi, li := pidx(o), pidx(l)
+		if oi >= 0 && li >= 0 {
+			return oi, li, true
+		}
+	}
+	return 0, 0, false
+}
+
+func sectionCallsIn(f *ssa.Function) []sectionCall {
+	var out []sectionCall
+	for _, c := range callsIn(f) {
+		if calleeName(c) == "io.NewSectionReader" {
+			a := callArgs(c)
+			out = append(out, sectionCall{c, a[1], a[2]})
+			continue
+		}
+		g := c.Common().StaticCallee()
+		if g == nil || g.Pkg == nil || !strings.HasPrefix(g.Pkg.Pkg.Path(), modPath) {
+			continue
+		}
+		if oi, li, ok := sectionWrapperParams(g, 0); ok {
+			a := c.Common().Args // includes the receiver for methods, as g.Params does
+			if oi < len(a) && li < len(a) {
+				out = append(out, sectionCall{c, a[oi], a[li]})
+			}
+		}
+	}
+	return out
+}
+
+// leafOnlyBehind: can the leaf value arrive (at the phi it flows into, or at its use) only after passing one of
+// the cut edges?
+func leafOnlyBehind(f *ssa.Function, lf valueLeaf, cut []edge) bool {
+	if lf.from == nil {
+		return false
+	}
+	if !reachable(f, nil, cut)[lf.from] {
+		return true
+	}
+	if lf.to == nil {
+		return false
+	}
+	all := false
+	for i, sc := range lf.from.Succs {
+		if sc != lf.to {
+			continue
+		}
+		in := false
+		for _, e := range cut {
+			if e.from == lf.from && e.succ == i {
+				in = true
+			}
+		}
+		if !in {
+			return false
+		}
+		all = true
+	}
+	return all
+}
+
+// fieldSources: for a value read from a field of a local struct cell (directly or through whole-struct copies of
+// other local cells, as a struct argument looks after inlining), the values that were stored into that field;
+// otherwise the value itself.
+func fieldSources(v ssa.Value) []ssa.Value {
+	var al *ssa.Alloc
+	idx := -1
+	switch x := v.(type) {
+	case *ssa.UnOp:
+		if x.Op == token.MUL {
+			if fa, ok := x.X.(*ssa.FieldAddr); ok {
+				if a, ok := fa.X.(*ssa.Alloc); ok {
+					al, idx = a, fa.Field
+				}
+			}
+		}
+	case *ssa.Field:
+		if ld, ok := x.X.(*ssa.UnOp); ok && ld.Op == token.MUL {
+			if a, ok := ld.X.(*ssa.Alloc); ok {
+				al, idx = a, x.Field
+			}
+		}
+	}
+	if al == nil {
+		return []ssa.Value{v}
+	}
+	var out []ssa.Value
+	var rec func(al *ssa.Alloc, depth int)
+	rec = func(al *ssa.Alloc, depth int) {
+		if al.Referrers() == nil || depth > 4 {
+			return
+		}
+		for _, r := range *al.Referrers() {
+			if fa, ok := r.(*ssa.FieldAddr); ok && fa.Field == idx {
+				for _, st := range storesTo(fa) {
+					out = append(out, fieldSources(st.Val)...)
+				}
+			}
+		}
+		for _, st := range storesTo(al) {
+			if ld, ok := st.Val.(*ssa.UnOp); ok && ld.Op == token.MUL {
+				if al2, ok := ld.X.(*ssa.Alloc); ok && al2 != al {
+					rec(al2, depth+1)
+				}
+			}
+		}
+	}
+	rec(al, 0)
+	if len(out) == 0 {
+		return []ssa.Value{v}
+	}
 	return out
 }
